@@ -20,7 +20,7 @@ for name in sorted(os.listdir(os.path.join(HERE, "seeded"))):
     said = ev.get("check_said") or []
     said_s = "; ".join(sorted({(s if isinstance(s, str) else "; ".join(s)).split(":")[0] for s in said}))[:150]
     if ev.get("judgement"):
-        verdict = "not a violation of the statement (see meta.json)"
+        verdict = "not (or no longer) a violation of the statement: silent is correct (see meta.json)"
     elif not ev.get("confirmed"):
         verdict = "seed not confirmed"
     elif ev.get("detected_with_concrete_input"):
